@@ -251,6 +251,32 @@ def build_site(case):
             r.location = ('/art/%d.html' % k, target.url)
             sitegen.add_link(rng, site, hub.url, r.url, 'a', ['abs-path', 'absolute', 'relative'])
         site.features.add('many-redirects')
+    if case.get('cookie_gate'):
+        # a section behind a "cookie bounce": /enter redirects to /members/ and sets a session cookie with the redirect;
+        # /members/ sends a client that comes without the cookie back to /enter
+        gate = site.add(sitegen.Page('http://' + site.host + '/enter', 'redirect'))
+        gate.status = rng.choice([302, 303, 307])
+        members = site.add(sitegen.Page('http://' + site.host + '/members/', 'html'))
+        gate.location = ('/members/', members.url)
+        gate.set_cookie = 'session=s%d' % rng.randrange(10 ** 6)
+        members.needs_cookie = (gate.set_cookie, '/enter')
+        for k in range(2):
+            inner = site.add(sitegen.Page('http://%s/members/page%d.html' % (site.host, k), 'leaf'))
+            inner.needs_cookie = members.needs_cookie
+            sitegen.add_link(rng, site, members.url, inner.url, 'a', ['relative', 'abs-path'])
+        sitegen.add_link(rng, site, site.start, gate.url, 'a', ['abs-path'])
+        site.features.add('cookie-gate')
+    if case.get('straddle'):
+        # a long UTF-8 page in which a 4-byte character lies across byte 131072; its links are spelled with literal non-ASCII
+        # characters, so a wrong guess of the encoding queues the wrong URLs
+        big = site.add(sitegen.Page('http://' + site.host + '/long-page.html', 'html'))
+        big.straddle = case['straddle']
+        for name in ('caf\u00e9', '\u65e5\u672c', 'stra\u00dfe'):
+            import urllib.parse
+            leaf = site.add(sitegen.Page('http://%s/%s.html' % (site.host, urllib.parse.quote(name)), 'leaf'))
+            big.links.append({'href': '/%s.html' % name, 'kind': 'a', 'target': leaf.url, 'spelling': 'literal-non-ascii'})
+        sitegen.add_link(rng, site, site.start, big.url, 'a', ['abs-path'])
+        site.features.add('long-utf8-page')
     if case.get('robots_meta'):
         # robots meta elements on some pages: the crawls run with --no-robots, which makes them plain pages
         mrng = random.Random(case['site_seed'] ^ 0x5EED)
@@ -330,6 +356,10 @@ def main():
             cases.append({'site_seed': site_seed, 'opts': opts, 'delay_seed': rng.randrange(1 << 30),
                           'n_pages': rng.choice([3, 5, 8, 12, 20, 40]), 'link_redirect_targets': i % 10 == 9,
                           'robots_meta': i % 3 == 1})
+            if i % 8 == 3:
+                cases[-1]['cookie_gate'] = True
+            if i % 16 == 9:
+                cases[-1]['straddle'] = rng.choice([1, 2, 3, 3])
             if i % 16 == 5:
                 cases[-1]['many_redirects'] = rng.choice([21, 25, 40, 64])
                 cases[-1]['opts'] = dict(opts, level=0 if opts['level'] in (0, 1) else opts['level'], accept_regex=None, reject_regex=None, no_parent=False)
